@@ -6,7 +6,8 @@
 //	XAP digest <tar> <end>                         signxap.DigestXapTar on a tar built from the member list
 //	XAP sign <tar> <end> <desc> <url> <s>          DigestXapTar + XapDigest.Sign (fixed RSA key): imprint, patch
 //	XAP roundtrip <zip> <desc> <url> <s> <tab>     signer module "xap": transform, sign, apply; then Verify on the output
-//	XAP history <zip> <desc:s,…>                   signing rounds at the level of lib/signxap (the transform refuses relic's output: F10)
+//	XAP history <zip> <desc:s,…>                   signing rounds through the signer module, each on the output of the one before
+//	XAP frame <file>                               signxap.SignatureFrameSize (through removeSignature / DigestXapTar)
 //	XAP verify <file> <size|-> <skip> <tab>        signxap.Verify through a recording ReaderAt (and, for '-', the signer's verify on a file)
 //	XAP mutate <signed> <tab> <n> <pos:byte>…      C02: single-byte mutants of a really signed file against the real Verify
 //
@@ -40,6 +41,7 @@ import (
 	"github.com/sassoftware/relic/v8/lib/certloader"
 	"github.com/sassoftware/relic/v8/lib/signxap"
 	"github.com/sassoftware/relic/v8/lib/zipslicer"
+	"github.com/sassoftware/relic/v8/signers"
 	"github.com/sassoftware/relic/v8/signers/sigerrors"
 
 	"verifharness/c17"
@@ -230,7 +232,7 @@ func patchString(p *binpatch.PatchSet) string {
 	return strings.Join(parts, ",")
 }
 
-// realTar: the stream the real transform (zipslicer.ZipToTar on a file) produces
+// realTar: the stream the xap signer's own transform produces for a file (GetTransform, GetReader, drained)
 func realTar(z []byte) ([]byte, error) {
 	dir, err := os.MkdirTemp("", "vh-xap-")
 	if err != nil {
@@ -246,11 +248,19 @@ func realTar(z []byte) ([]byte, error) {
 		return nil, err
 	}
 	defer f.Close()
-	var b bytes.Buffer
-	if err := zipslicer.ZipToTar(f, &b); err != nil {
+	mod := signers.ByName("xap")
+	if mod == nil {
+		return nil, errors.New("no xap signer")
+	}
+	tr, err := mod.GetTransform(f, signers.SignOpts{Path: p, Hash: crypto.SHA256})
+	if err != nil {
 		return nil, err
 	}
-	return b.Bytes(), nil
+	r, err := tr.GetReader()
+	if err != nil {
+		return nil, err
+	}
+	return io.ReadAll(r)
 }
 
 // signModule: the signer module "xap" end to end (GetTransform, GetReader, Sign, Apply) with the fixed key
@@ -633,6 +643,9 @@ func RoundtripOp(z []byte, desc, url string) string {
 func genRoundtrips(w *bufio.Writer, r *hx.Rng, n int) {
 	for i := 0; i < n; i++ {
 		z, _ := genZip(r)
+		if r.Intn(6) == 0 { // already signed (foreign blob): the transform has to look in front of the frame
+			z = append(append([]byte{}, z...), sigBlock(r.Bytes(r.Pick(0, 1, 12, 13, 100)))...)
+		}
 		desc, url := randText(r, r.Pick(0, 0, 1, 7, 8, 9, 60, 200)), ""
 		if r.Intn(4) == 0 {
 			url = "http://" + randText(r, r.Pick(3, 20)) + "/"
@@ -647,6 +660,12 @@ func genHistories(w *bufio.Writer, r *hx.Rng, n, maxRounds int) {
 		loc, err := dirLocOf(z)
 		if err != nil {
 			continue
+		}
+		if r.Intn(4) == 0 { // an input that already carries a (foreign) signature frame, or two
+			z = append(append([]byte{}, z...), sigBlock(r.Bytes(r.Pick(0, 1, 12, 100)))...)
+			if r.Intn(3) == 0 {
+				z = append(z, sigBlock(r.Bytes(r.Pick(1, 30)))...)
+			}
 		}
 		g := z
 		var parts []string
@@ -804,6 +823,9 @@ func genVerifies(w *bufio.Writer, r *hx.Rng, n int, malformedOnly bool) {
 			skip = "1"
 		}
 		fmt.Fprintf(w, "XAP verify %s %s %s %s\n", hx.Hex(f), size, skip, tab)
+		if size == "-" && r.Intn(2) == 0 {
+			fmt.Fprintf(w, "XAP frame %s\n", hx.Hex(f))
+		}
 	}
 }
 
@@ -920,11 +942,9 @@ func Handle(f []string) (res string) {
 		}
 		return fmt.Sprintf("ok out=%s V %s", hx.Hex(out), v)
 	case "history":
+		// every round through the signer module (transform, sign, apply); the imprint of each round is observed by digesting
+		// the transform's own stream
 		z := hx.MustUnHex(f[1])
-		loc, err := dirLocOf(z)
-		if err != nil {
-			return "err " + classifyT(fmt.Errorf("reading tar: %w", err))
-		}
 		var descs []string
 		for _, item := range strings.Split(f[2], ",") {
 			descs = append(descs, u(strings.SplitN(item, ":", 2)[0]))
@@ -933,29 +953,27 @@ func Handle(f []string) (res string) {
 		same := true
 		var first []byte
 		for k, desc := range descs {
-			var t []byte
-			if k == 0 { // the first round goes through the real transform
-				if t, err = realTar(z); err != nil {
-					return "err " + classifyT(fmt.Errorf("reading tar: %w", err))
-				}
-			} else { // relic's own output is refused by the transform (F10): the framing ZipToTar would deliver
-				t = buildTar(framing(g, loc), "eof")
-			}
-			d, p, _, err := digestSign(t, desc, "", true)
+			t, err := realTar(g)
 			if err != nil {
-				return "err " + classify(err)
+				return fmt.Sprintf("err round%d-%s", k+1, classifyT(fmt.Errorf("reading tar: %w", err)))
+			}
+			d, err := signxap.DigestXapTar(bytes.NewReader(t), crypto.SHA256, false)
+			if err != nil {
+				return fmt.Sprintf("err round%d-%s", k+1, classify(err))
 			}
 			if k == 0 {
 				first = append([]byte{}, d.Imprint...)
 			} else if !bytes.Equal(first, d.Imprint) {
 				same = false
 			}
-			if g = pe.ApplyMem(g, p); g == nil {
-				return "err apply"
+			out, err := signModule(g, desc, "")
+			if err != nil {
+				return fmt.Sprintf("err round%d-%s", k+1, classifyT(err))
 			}
+			g = out
 		}
 		repl := "direct-failed"
-		if direct, _, _, err := signedReal(z, loc, descs[len(descs)-1], ""); err == nil {
+		if direct, err := signModule(z, descs[len(descs)-1], ""); err == nil {
 			repl = "not-replaced"
 			if bytes.Equal(direct, g) {
 				repl = "replaced"
@@ -970,6 +988,15 @@ func Handle(f []string) (res string) {
 			ds = "changed"
 		}
 		return fmt.Sprintf("ok out=%s digests=%s %s t=%s", hx.Hex(g), ds, repl, tcls)
+	case "frame":
+		// SignatureFrameSize through removeSignature: on a tar whose directory member and zip member are both the given bytes,
+		// PatchLen is the number of bytes removeSignature cut off
+		g := hx.MustUnHex(f[1])
+		d, err := signxap.DigestXapTar(bytes.NewReader(buildTar(framing(g, 0), "eof")), crypto.SHA256, false)
+		if err != nil {
+			return "err " + classify(err)
+		}
+		return fmt.Sprintf("ok %d", d.PatchLen)
 	case "verify":
 		g := hx.MustUnHex(f[1])
 		size := int64(len(g))
